@@ -142,8 +142,14 @@ def main():
             #      (their vectors), and a load that fails leaves a ghost behind, not a half-built node
             from harness import minijar
 
-            def stored():
+            kept = []
+
+            def stored(keep=False):
                 t_ = build(path)
+                if keep:
+                    # (the leaves stay alive in `kept`: evicted and loaded again they are the same objects, and their
+                    #  reference counts can be read off before and after a failed call)
+                    kept[:] = P.collect_leaves(t_)
                 jar_ = minijar.Jar(minijar.Store())
                 # every node gets a record of its own (parents first), so that no leaf is written inline: the tree comes back
                 # from the store exactly as it is (the inline form under a database is finding D18)
@@ -186,10 +192,19 @@ def main():
                         continue
                     del t, jar
                     for n in range(1, min(nq, 30) + 1):
-                        t, jar = stored()
+                        t, jar = stored(keep=True)
+                        rc0 = [sys.getrefcount(x) for x in kept]
                         arm(n)
                         got_ = []
                         out = guarded(lambda: got_.append(qf(t)))
+                        jar.cache.minimize()
+                        rc1 = [sys.getrefcount(x) for x in kept]
+                        if rc1 != rc0:
+                            mism.append(dict(fam=fam, is_set=is_set, sizes=[job['leaf'], job['internal']], act=tr['act'], op='stored ' + qname,
+                                             fail_at=n, allocations=nq, kind='node-references-after-failed-read', real=[b_ - a_ for a_, b_ in zip(rc0, rc1)]))
+                            kept[:] = []
+                            del t, jar
+                            continue
                         counts['stored_query_faults'] = counts.get('stored_query_faults', 0) + 1
                         wq = dict(fam=fam, is_set=is_set, sizes=[job['leaf'], job['internal']], act=tr['act'], op='stored ' + qname, fail_at=n, allocations=nq)
                         if out != 'MemoryError' and not (out == 'ok' and got_[0] == qwant):
@@ -201,6 +216,7 @@ def main():
                             mism.append(dict(wq, kind='unreadable-after-fault', real=repr(e)[:100]))
                         jar.cache.minimize()
                         del t, jar
+                    kept[:] = []
             t, jar = stored()
             arm(0)
             out0 = guarded(lambda: apply(t, emb, tr['act'], 0))
